@@ -23,16 +23,21 @@ assert run(['git', 'status', '--porcelain', '--', 'circuits'], '/repo')[1].strip
 rc, out = run(['git', 'apply', os.path.join(dst, 'patch.diff')], '/repo')
 assert rc == 0, out
 try:
-    rc, out = run(['/venv/bin/python', os.path.join(dst, 'demo.py')], '/repo', 300)
-    meta['demo_with_change'] = {'rc': rc, 'tail': out.strip().splitlines()[-3:]}
     rc, out = run(['bin/check', prop, '--no-evidence'], '/verif')
     lines = [l for l in out.splitlines() if l.startswith(('VIOLATION', 'failed obligation', 'UNDECIDED', 'CHECKER', prop + ':'))]
     meta['check_with_change'] = {'cmd': 'bin/check %s' % prop, 'rc': rc, 'violations': [l[:260] for l in lines if l.startswith(('VIOLATION', 'failed'))][:8],
                                  'summary': lines[-1] if lines else ''}
 finally:
     run(['git', 'checkout', '--', '.'], '/repo')
-rc, out = run(['/venv/bin/python', os.path.join(dst, 'demo.py')], '/repo', 300)
-meta['demo_without_change'] = {'rc': rc, 'tail': out.strip().splitlines()[-2:]}
+# demo in the scratch worktree it was written for: with the change, then without (git stash), then restored
+rc, out = run(['/venv/bin/python', 'SEED/demo.py'], wt, 300)
+meta['demo_with_change'] = {'cmd': 'cd <worktree> && /venv/bin/python SEED/demo.py', 'rc': rc, 'tail': out.strip().splitlines()[-3:]}
+run(['git', 'stash'], wt)
+try:
+    rc, out = run(['/venv/bin/python', 'SEED/demo.py'], wt, 300)
+    meta['demo_without_change'] = {'cmd': 'git stash; /venv/bin/python SEED/demo.py; git stash pop', 'rc': rc, 'tail': out.strip().splitlines()[-2:]}
+finally:
+    run(['git', 'stash', 'pop'], wt)
 meta['caught'] = meta['check_with_change']['rc'] == 1
 meta['confirmed'] = meta['tests_with_change']['rc'] == 0 and meta['demo_with_change']['rc'] == 1 and meta['demo_without_change']['rc'] == 0
 json.dump(meta, open(os.path.join(dst, 'meta.json'), 'w'), indent=1)
